@@ -34,6 +34,12 @@ META = {
     "terms below an absolute 1e-6 (e4d32c2) and norm_xy broke Poly2d.fit for point sets containing their "
     "centroid (1cb55fb); replays of both are in corpus/C20.  The strict 'minimal' bound of snap_grid excludes "
     "the zero-width interval with tol = 0 (equality there, proved and exercised).",
+    "inventory_not_modelled": "odc/geo/math.py parts without a Lean mirror in Model/C20: apply_affine (numpy broadcast of "
+    "A*(x,y); pointwise meaning is Aff.apply), stack_xy / unstack_xy (container conversion), edge_index and quasi_random_r2 "
+    "(covered by other properties), norm_xy has a field-generic model (Lemmas/C20e, sqrt as witnesses) but no driver op, "
+    "Poly2d.fit end to end (dispatch, design rows, de-normalisation, cost and the fit theorems are modelled; LAPACK lstsq is a "
+    "parameter), Poly2d.__call__ array-shape routing (oracle only), maybe_zero / clamp are modelled without theorems, "
+    "Bin1D.__eq__, the ndarray variant of decompose_rws (same core as the Affine variant), get_scale_at_point (oracle only).",
     "technique": "Lean 4 proof over hand model + exhaustive/random differential correspondence with real code",
     "design_ref": "DESIGN.md §4 C20",
 }
@@ -1461,6 +1467,74 @@ def sec_poly_routes(R: Run, M, Affine):
             R.oracle(False, "poly2d-array-call-raises", case, repr(ex), sig="raises")
 
 
+def sec_growth(R: Run, M, Affine):
+    """split_translation; Poly2d.fit dispatch and design matrices (norm_xy and lstsq substituted from the harness so that the
+    rows LAPACK receives are observable and exact)"""
+    from odc.geo import xy_
+    rng = R.rng
+    # split_translation: exact for every finite double (it is split_float per axis)
+    vals = [0.0, 0.5, -0.5, 1.5, -2.5, 0.49999999999999994, 1e15 + 0.5, -3.25, 7.75]
+    for _ in range(R.pick(600, 6000)):
+        x = rng.choice(vals) if rng.random() < 0.3 else rnd_double(rng)
+        y = rng.choice(vals) if rng.random() < 0.3 else rnd_double(rng)
+        if not (math.isfinite(x) and math.isfinite(y)):
+            continue
+        out = []
+
+        def f():
+            w, p = M.split_translation(xy_(x, y))
+            out.append((w, p))
+            return f"{frac_s(w.x)};{frac_s(w.y)} {frac_s(p.x)};{frac_s(p.y)}"
+
+        R.corr(f"c20 splittr {frac_s(x)} {frac_s(y)}", f, sig="splittr")
+        if out:
+            w, p = out[0]
+            ok = (F(w.x) + F(p.x) == F(x) and F(w.y) + F(p.y) == F(y) and abs(F(p.x)) <= F(1, 2) and abs(F(p.y)) <= F(1, 2)
+                  and F(w.x).denominator == 1 and F(w.y).denominator == 1)
+            R.oracle(ok, "split-translation-contract", {"x": frac_s(x), "y": frac_s(y)}, f"{w} {p}", sig="splittr")
+    # Poly2d.fit: which family for N points, and the design-matrix rows
+    orig_norm, orig_lstsq = M.norm_xy, M.np.linalg.lstsq
+    for N in list(range(0, 13)) + [16, 20, 30]:
+        for rep in range(R.pick(2, 10)):
+            pts = set()
+            while len(pts) < N:
+                pts.add((rng.randint(-16, 16) / 4, rng.randint(-16, 16) / 4))
+            pts = sorted(pts)
+            rng.shuffle(pts)
+            aa = np.asarray(pts, dtype="float64").reshape(-1, 2)
+            bb = aa * 2 + 1
+            seen = []
+
+            def fake_norm(p, out=None):
+                return np.array(p, dtype="float64", copy=True), Affine.identity()
+
+            def spy(AA, B, rcond=None):
+                seen.append(np.array(AA, copy=True))
+                return orig_lstsq(AA, B, rcond=rcond)
+
+            def fk():
+                M.norm_xy = fake_norm
+                M.np.linalg.lstsq = spy
+                try:
+                    P = M.Poly2d.fit(aa, bb)
+                finally:
+                    M.norm_xy = orig_norm
+                    M.np.linalg.lstsq = orig_lstsq
+                AA = seen[-1]
+                k = P._cc.shape[0]
+                name = {3: "affine", 4: "bilinear", 9: "biquadratic"}.get(AA.shape[1], f"cols{AA.shape[1]}")
+                return f"{name} {AA.shape[1]} {k}"
+
+            R.corr(f"c20 fitkind {N}", fk, sig=f"fitkind|{min(N, 10)}")
+            if seen and seen[-1].shape[0] == N:
+                AA = seen[-1]
+                for i in rng.sample(range(N), min(N, 3)):
+                    x, y = pts[i]
+                    R.corr(f"c20 design {N} {frac_s(x)} {frac_s(y)}", lambda: list_s([float(v) for v in AA[i]], frac_s),
+                           sig=f"design|{AA.shape[1]}")
+    assert M.norm_xy is orig_norm and M.np.linalg.lstsq is orig_lstsq
+
+
 def run(R: Run):
     M, Affine = _import()
     sec_split_int(R, M)
@@ -1474,6 +1548,7 @@ def run(R: Run):
     sec_bin(R, M)
     sec_poly(R, M, Affine)
     sec_poly_routes(R, M, Affine)
+    sec_growth(R, M, Affine)
     R.exhaustive = False
 
 
